@@ -83,7 +83,18 @@ def run(repo: Repo, rep: Report, tier: str) -> None:
     for n in ast.walk(rets[-1].value):
         if isinstance(n, ast.Compare) and isinstance(n.ops[0], ast.NotIn):
             excl |= {l.text for l in du.leaves(n.comparators[0])}
-    ok = enable_sig not in avail or "RESERVED_SIGNALS" in excl
+    excl_vals: set[str] = set()
+    for en in sorted(excl):
+        if en.isidentifier():
+            for modx in (pool.module, repo.module("common.signals")):
+                try:
+                    val = module_const(repo, modx, en)
+                except Exception:
+                    continue
+                if isinstance(val, (set, frozenset, list, tuple)):
+                    excl_vals |= {x for x in val if isinstance(x, str)}
+                break
+    ok = enable_sig not in avail or "RESERVED_SIGNALS" in excl or enable_sig in excl_vals
     rep.check(ok, "C03-R2", "no untyped value can be allocated the enable signal", "RESERVED_SIGNALS is excluded from the allocation pool" if ok else
               f"{enable_sig} is in AVAILABLE_VIRTUAL_SIGNALS and the pool's exclusion set {sorted(excl)} omits RESERVED_SIGNALS: an unrelated value on {enable_sig} holds the write gate open", pool.loc())
     # typestate of the enable argument of memory_write: every alternative it can stand for is the lowered `when` expression (retyped in place
